@@ -60,7 +60,7 @@ def sfmtSkip64 (n : Nat) (s : SFMT) : SFMT := Id.run do
 def lastN {α} (k : Nat) (l : List α) : List α := l.drop (l.length - k)
 
 def stats (xs : List Float) : Float × Float :=
-  let n := Float.ofNat xs.length
+  let n := xs.length.toUInt64.toFloat
   let s := xs.foldl (· + ·) 0
   let mean := s / n
   let ss := xs.foldl (fun a x => a + (x - mean) * (x - mean)) 0
